@@ -76,7 +76,8 @@ def feed_real(stream: bytes, cuts, nfut: int):
     from aiohomekit.controller.ip.connection import InsecureHomeKitProtocol
     log: list = []
     proto = InsecureHomeKitProtocol(_Conn(log))
-    proto.result_cbs = [_Fut(log, i) for i in range(nfut)]
+    # keep whatever container the protocol chose for its pending futures (list, deque, ...)
+    proto.result_cbs.extend(_Fut(log, i) for i in range(nfut))
     after = []
     p = 0
     err = None
